@@ -323,14 +323,15 @@ pub fn run(run: &mut Run) {
         "core",
     ));
     if thorough {
+        // length 3 over every second operation of the full alphabet (the full cube is 3.9 M histories / >10 min)
         plans.push((
             HistCfg {
                 seeds: vec!["basic"],
-                alphabet: full.clone(),
+                alphabet: full.iter().step_by(2).cloned().collect(),
                 depth: 3,
             },
             3,
-            "full",
+            "full/2",
         ));
     }
     let mut outcomes = std::collections::HashSet::new();
